@@ -62,3 +62,17 @@ package keys
 //@ may-panic
 //@ opt frame off
 //@ call (Form).Bytes requires[nfc] arg0 == 0   // norm.NFC, the first of the four forms
+
+// WIF (C18): what is encoded is version byte, the 32 key bytes, and 0x01 iff compressed; a string
+// decodes only if its first byte is the version asked for (0 standing for the default 0x80) and its
+// shape is one of the two encoded ones, and the key is read from bytes 1..32.
+//@ prop C18
+//@ func WIFEncode
+//@ may-panic
+//@ opt frame off
+//@ call CheckEncode requires[layout] len(arg0) == ite(compressed, 34, 33) && arg0[0] == ite(version == 0, WIFVersion, version) && forall(k, 0, 32, arg0[1+k] == key[k]) && (compressed ==> arg0[33] == 1)
+//@ func WIFDecode
+//@ may-panic
+//@ opt frame off
+//@ call NewPrivateKeyFromBytes requires[version] b[0] == ite(version == 0, WIFVersion, version)
+//@ call NewPrivateKeyFromBytes requires[shape] (len(b) == 33 || (len(b) == 34 && b[33] == 1)) && len(arg0) == 32 && forall(k, 0, 32, arg0[k] == b[1+k])
